@@ -90,6 +90,21 @@ FS_RULE = ("operation sequences (write of 4..200 bytes, Reopen, external rename 
            "compared with the model after every step; plus 1-8 concurrent writers and a child process SIGKILLed at a random instant, checked by the Go oracle; a case is "
            "non-trivial when at least two events were acknowledged, distinct by op list")
 
+ENC_RUN = dict(
+    model="encrypt", sub="encrypt", driver="encrypt",
+    quick=["-n", "3000", "-deep", "3000"], thorough=["-n", "100000", "-deep", "100000"], search=["-n", "30000", "-deep", "30000"],
+)
+ENC_ASSUME = [
+    "the Lean model covers tag resolution for every tag string / override map and Process on pointers to flat structs of string / []byte fields; nested shapes (structs through pointers, slices, maps, struct values in maps, bare maps, nil pointers) are decided on the implementation by the harness's canary oracle, not by a theorem; Taggable and wrapper-value (wrapperspb / structpb) fields are not exercised",
+    "every produced value is canonicalised by independent code: AEAD Decrypt with each candidate key (go-kms-wrapping), HKDF (x/crypto) + HMAC-SHA256 recomputation",
+    "copystructure / pointerstructure / reflect settability as observed through the correspondence",
+]
+ENC_RULE = ("(i) flat structs built at run time (reflect.StructOf) with 1-6 string / []byte / int fields and `class` tags from a pool of 19 spellings (valid, unknown, mixed case, "
+            "extra segments, empty), no tag, nil byte slices; override maps over {public, sensitive, secret, bogus} x {none, redact, encrypt, hmac, unknown op}; wrapper present / absent; "
+            "EventWrapperInfo payloads (event id present / empty, per-event salt / info); Rotate and rotation payloads in between; leaf-by-leaf comparison with the model. "
+            "(ii) 14 deep shape classes with canary tokens per leaf: a protected canary must not survive anywhere in the forwarded event, public ones must, input snapshot unchanged, "
+            "shape preserved. Non-trivial = a filtered copy was produced")
+
 PROPS = {
     "C01": dict(
         module="Evl.Props.C01",
@@ -223,6 +238,26 @@ PROPS = {
                      "base62.Random gives fresh ids (the harness checks collisions within a run only)",
                      "the harness signer is a deterministic function the Lean driver can recompute; a failing signer returns an error"],
         rule="all payload kinds (raw value, plain struct, ID, Data, both; nil data) x formats {unset, json, text, invalid} x schema set/unset/empty x source set/nil/empty x signer absent / succeeding / failing x listed / unlisted event types (incl. types with HTML and invalid UTF-8 bytes) x predicate absent/keep/drop/error; non-trivial = a document was produced, distinct by op line",
+    ),
+    "C09": dict(
+        module="Evl.Props.C09",
+        theorems=["Evl.C09.tag_secure", "Evl.C09.unknown_redacted", "Evl.C09.action_keep_iff", "Evl.C09.filterOne_noleak", "Evl.C09.flat_noleak", "Evl.C09.fail_closed"],
+        runs=[ENC_RUN], oracle_prefixes=["C09"], models=["M7 Encrypt (tag resolution, flat structs)"],
+        trusted_base=TB_COMMON, assumptions=ENC_ASSUME, rule=ENC_RULE,
+    ),
+    "C10": dict(
+        module="Evl.Props.C10",
+        theorems=["Evl.C10.shape", "Evl.C10.length_preserved", "Evl.C10.identity"],
+        runs=[ENC_RUN], oracle_prefixes=["C10"], models=["M7 Encrypt (flat structs)"],
+        trusted_base=TB_COMMON, assumptions=ENC_ASSUME + ["partial: 'the input is not modified' is decided by the deep before/after snapshot comparison of the harness on every case; Go-level aliasing is outside the value model"],
+        rule=ENC_RULE,
+    ),
+    "C16": dict(
+        module="Evl.Props.C16",
+        theorems=["Evl.C16.key_in_force", "Evl.C16.per_event_precedence", "Evl.C16.rotation", "Evl.C16.last_wrapper_wins", "Evl.C16.deterministic"],
+        runs=[ENC_RUN, race_run("stockenc", 3, 30, 10)], oracle_prefixes=["C16"], models=["M7 Encrypt (key material)"],
+        trusted_base=TB_COMMON, assumptions=ENC_ASSUME + ["go-kms-wrapping AEAD decrypt o encrypt = id; HKDF and HMAC-SHA256 themselves; atomicity of one value under concurrent rotation is C19's lock-set fact for encrypt.Filter"],
+        rule=ENC_RULE,
     ),
     "C11": dict(
         module="Evl.Props.C11",
